@@ -27,8 +27,8 @@ REAL = ["solvor.sat.solve_sat (end to end, incl. luby, BinaryImplications, propa
 STUB = ["decision heuristic when a non-VSIDS policy is sampled (hook sat.pick_var)", "reduce_db threshold constant (code-object patch)"]
 ASSUMPTIONS = ["perturbed decision schedules are legal CDCL executions of the same code", "z3 / truth-table oracles are correct"]
 TIERS = {
-    "quick": {"runs": 12000, "block": 250, "budget_s": 80},
-    "thorough": {"runs": 600000, "block": 1000, "budget_s": 900},
+    "quick": {"runs": 60000, "block": 1000, "budget_s": 80},
+    "thorough": {"runs": 3000000, "block": 2000, "budget_s": 900},
 }
 SOLVER_ERRORS = (UnboundLocalError, IndexError, KeyError, TypeError, ValueError, ZeroDivisionError, OverflowError, AttributeError,
                  RecursionError, AssertionError, NameError)
@@ -98,7 +98,20 @@ def z3_verdict(clauses, assumptions, n):
 
 
 def gen_formula(rng, big):
-    kind = rng.choice(["rand"] * 6 + ["php", "parity", "amo", "grid", "units"])
+    kind = rng.choice(["rand"] * 4 + ["hard"] * 5 + ["php", "parity", "amo", "grid", "units"])
+    if kind == "hard":  # near-threshold k-SAT: conflicts, learning, backjumps and restarts actually fire
+        n = rng.randrange(6, 15 if not big else 17)
+        k = rng.choice([3, 3, 3, 2, 4])
+        ratio = {2: rng.choice([0.9, 1.1, 1.5]), 3: rng.choice([3.8, 4.3, 4.8, 5.5]), 4: rng.choice([8.0, 9.9])}[k]
+        clauses = []
+        for _ in range(max(1, int(n * ratio))):
+            vs = rng.sample(range(1, n + 1), k)
+            clauses.append([v if rng.random() < 0.5 else -v for v in vs])
+        for _ in range(rng.choice([0, 0, 1, 2])):  # a few units on top
+            v = rng.randrange(1, n + 1)
+            clauses.append([v if rng.random() < 0.5 else -v])
+        rng.shuffle(clauses)
+        return clauses
     if kind == "rand":
         n = rng.randrange(1, 15 if not big else 17)
         widths = rng.choice([[1, 2, 2, 3, 3, 3], [2, 2, 3], [3], [1, 2, 3, 4], [2], [1, 1, 2, 3]])
